@@ -92,14 +92,14 @@ def run(ctx):
             continue
         (nm, init), rest = p
         parts[name] = (init, rest)
-        ctx.inst("C15.R1", "%s#vector" % name, init == NUMS_ORACLE, "nums = %s" % S.show(init)[:300], H.loc(a["body"]))
+        ctx.inst("C15.R1", "%s#vector" % name, S.verdict(init, NUMS_ORACLE), "nums = %s" % S.show(init)[:300], H.loc(a["body"]))
         vals = [x for x in rest if x[0] in ("value", "return", "push")]
         leak = [x for x in rest if uses_args(x)]
         ctx.inst("C15.R1", "%s#only-through-vector" % name, not leak, "after building the vector the arguments are referenced again: %s" % bool(leak), H.loc(a["body"]))
         # empty guard: error when no numbers
         guards = [x for x in rest if x[0] == "when" and x[1] == ("call", "is_empty", N) and x[2][0] == "return" and x[2][1][0] == "ctor" and x[2][1][1] == "Err"]
         got = [x[1] for x in vals]
-        ctx.inst("C15.R3", "%s#reduction" % name, got == REDUCTION[name], "computes %s; documented %s" % ([S.show(v) for v in got], [S.show(v) for v in REDUCTION[name]]), H.loc(a["body"]))
+        ctx.inst("C15.R3", "%s#reduction" % name, S.verdict(tuple(got), tuple(REDUCTION[name])), "computes %s; documented %s" % ([S.show(v) for v in got], [S.show(v) for v in REDUCTION[name]]), H.loc(a["body"]))
         ctx.inst("C15.R3", "%s#empty-is-error" % name, len(guards) == 1, "`if nums.is_empty() { return Err }` before the reduction: %s" % (len(guards) == 1), H.loc(a["body"]))
     # ---- R4 both calling conventions are admitted by the arity table
     ctx.rule("C15.R4", "the arity table admits both calling conventions for each of min max avg sum prod median: any number of arguments >= 1 (one list, one number, or several numbers)", floor=6)
@@ -146,7 +146,7 @@ def run(ctx):
     want_nums = ("try", ("call", "collect", ("call", "map", ("try", ("call", "as_list", A0)), CLO)))
     want_idx = ("cast", "usize", ("call", "round", ("bin", "Mul", ("bin", "Div", P, ("lit", "100.0")), ("cast", "f64", ("bin", "Sub", LEN, ("lit", "1"))))))
     vals = [x[1] for x in rest if x[0] == "value"]
-    ok = nums_seen == want_nums and vals == [SORT, ("ctor", "Number", ("index", N, S.resort(want_idx)))]
+    ok = S.verdict((nums_seen, tuple(vals)), (want_nums, (SORT, ("ctor", "Number", ("index", N, S.resort(want_idx))))))
     ctx.inst("C15.R3", "Percentile#reduction", ok, "numbers %s; computes %s" % (S.show(nums_seen)[:120] if nums_seen else None, [S.show(v)[:200] for v in vals]), H.loc(pa["body"]))
     guards = [x for x in rest if x[0] == "when" and x[2][0] == "return"]
     rng = [g for g in guards if S.contains(g[1], ("lit", "0.0")) and S.contains(g[1], ("lit", "100.0"))]
